@@ -655,6 +655,15 @@ func main() {
 			{"include-before-vars-element", incl("cfg: {name: x}", "${{ vars }}"), incl(anyE, "${{ vars }}")},
 			{"include-two-unknown-elements", incl("cfg: {name: x}", "os: y"), incl(anyE, anyE)},
 		}...)
+		// a ROW key that an include element re-defines as an object: with the element's type unknown the
+		// member access on the row key must stay accepted
+		inclRow := func(el string) string {
+			return "on: push\njobs:\n  build:\n    strategy:\n      matrix:\n        os: [ubuntu]\n        ver: [1, 2]\n        include:\n          - " + el + "\n    runs-on: ubuntu-latest\n    steps:\n      - run: echo ${{ matrix.os.x }} ${{ matrix.ver.major }}\n"
+		}
+		sites = append(sites, []struct{ name, precise, loose string }{
+			{"include-element-redefines-row-key", inclRow("'${{ fromJSON(''{\"os\": {\"x\": 1}, \"ver\": {\"major\": 1}}'') }}'"), inclRow(anyE)},
+			{"include-element-redefines-row-key-event", inclRow("'${{ fromJSON(''{\"os\": {\"x\": 1}, \"ver\": {\"major\": 1}}'') }}'"), inclRow("${{ github.event.client_payload.extra }}")},
+		}...)
 		// the `jobs` context of a reusable workflow: a job with declared outputs against a job that
 		// is itself a call (outputs unknown)
 		callOut := func(build string) string {
